@@ -1,10 +1,14 @@
 /* proof unit for ec_make and ec_exec of /repo/ex.c (":make", ":!").
  * MECHANICAL EXTRACTION (redone on every run by run.py, unit key "extract"): ex.c's preprocessor
- * lines, the verbatim text of the functions named in the unit (ec_make, ec_exec, ec_print, ec_rs, ec_undo, ec_redo), and a prototype for every other static function
+ * lines, the verbatim text of the functions named in the unit (ec_make, ec_exec, ec_print, ec_rs, ec_undo, ec_redo, ec_source), and a prototype for every other static function
  * (bodies dropped); everything else of ex.c is dropped.  sprintf / snprintf (variadic) are routed to
  * three-argument stubs that check the destination against the length of what is formatted. */
 #include "pre.h"
 #include <stdio.h>
+#include <fcntl.h>
+#include <unistd.h>
+static int verif_open(const char *path, int flags);
+#define open(path, flags, ...) verif_open(path, flags)
 static int verif_sprintf3(char *s, const char *fmt, const char *arg);
 static int verif_snprintf4(char *s, unsigned long n, const char *fmt, const char *arg);
 #define sprintf(s, f, a) verif_sprintf3(s, f, a)
